@@ -22,7 +22,8 @@ ID = "C02"
 CLAIMED = True
 TITLE = "Parsing depends only on the bytes; one bad frame = one error"
 REQUIRED_THEOREMS = ["C02_sep_copy_chunking_independent", "C02_sep_copy_two_chunkings", "C02_one_item_per_frame",
-                     "C02_sep_buffered_chunking_independent", "C02_sep_paths_agree"]
+                     "C02_sep_buffered_chunking_independent", "C02_sep_paths_agree",
+                     "C02_sep_copy_resume_after_limit", "C02_sep_copy_resume_then_decode", "C02_sep_buffered_resume_after_limit"]
 LEVEL_TEXT = (
     "Machine-checked proof (Lean 4): the modelled consumer over a separator framer equals frame-by-frame decoding of "
     "the accumulated bytes for every chunking of a stream that decodes without size error, and after a size rejection "
